@@ -538,6 +538,14 @@ func main() {
 			fmt.Printf("REPLAY: property violated: %s (key %s)\n", fl.What, fl.Key)
 			os.Exit(1)
 		}
+		if embeddable(f.Input) {
+			lr := lintOracle(newLinter(), f.Input, ir)
+			fmt.Printf("through Linter.Lint (text embedded after ${{ in a workflow): %s\n", lr.got)
+			if !lr.ok {
+				fmt.Printf("REPLAY: property violated: %s\n", lr.what)
+				os.Exit(1)
+			}
+		}
 		fmt.Println("REPLAY: property holds on this input")
 		return
 	}
